@@ -10,7 +10,7 @@
 
 static gslot *s_zs, *s_out, *s_st, *s_in, *s_extra, *s_name, *s_comment, *s_hdr, *s_ic[4];
 static uint8_t *ref, *extra_src; static char *name_src, *comment_src;
-static long st_writes, st_reads, st_resumes, st_small, st_splits, st_arbitrary, st_ret[16], st_verdict_ok, st_verdict_rej, st_via_inflate;
+static long st_writes, st_reads, st_resumes, st_small, st_splits, st_arbitrary, st_ret[16], st_verdict_ok, st_verdict_rej, st_via_inflate, st_dict_after;
 
 static void fault_key(const char *what) { v_describe_fault(); char key[200]; snprintf(key, sizeof key, "fault:%s:%s:%s", v_fault_sym(), v_fault_slot(), v_fault.sig == SIGALRM ? "hang" : v_fault.sig == SIGABRT ? "abort" : "access"); v_viol(key, "%s: %s", what, v_fault_txt); }
 static void gen_fields(vrng *r, refgz_t *h)
@@ -35,8 +35,9 @@ static void gzip_write_case(long idx, vrng *r)
 	v_setcase(idx, "write gzip header: text=%d hcrc=%d time=%08x xfl=%02x os=%02x extra=%d/%u name=%zd comment=%zd avail_out=%zu (needs %zu)", h.text, h.hcrc, h.mtime, h.xfl, h.os, h.has_extra, h.extra_len, h.name ? (ssize_t) strlen(h.name) : -1, h.comment ? (ssize_t) strlen(h.comment) : -1, cap, want);
 	uint32_t rc; static struct isal_zstream snap;
 	if (V_TRY(20)) {
+		vr_fill(r, gh, sizeof *gh);                 /* a struct that was used before (e.g. received a parsed header): init must make it behave like a fresh one */
 		isal_deflate_init(zs); isal_gzip_header_init(gh);
-		gh->text = h.text; gh->time = h.mtime; gh->xflags = h.xfl; gh->os = h.os; gh->hcrc = h.hcrc;
+		gh->text = h.text; gh->time = h.mtime; gh->xflags = h.xfl; gh->os = h.os; if (h.hcrc || vrn(r, 2)) gh->hcrc = h.hcrc;   /* "no header CRC" is the initialised default */
 		gh->extra = ex; gh->extra_len = h.extra_len; gh->extra_buf_len = h.extra_len + (vrn(r, 2) ? vrn(r, 500) : 0);   /* a buffer larger than the field (e.g. a parsed header being re-emitted) */ gh->name = nm; gh->name_buf_len = nm ? (uint32_t) strlen(nm) + 1 : 0; gh->comment = cm; gh->comment_buf_len = cm ? (uint32_t) strlen(cm) + 1 : 0;
 		if (h.has_extra && !ex) gh->extra = (uint8_t *) gh;       /* zero-length extra field: a non-NULL pointer selects FEXTRA */
 		zs->next_out = out; zs->avail_out = (uint32_t) cap; zs->total_out = 7;
@@ -160,6 +161,9 @@ static void zlib_read_case(long idx, vrng *r)
 		V_END;
 	} else { fault_key("isal_read_zlib_header"); goto out; }
 	if (mode) st_splits++;
+	if (fdict) { /* the application now supplies the dictionary the header asks for: the state must accept it */
+		static uint8_t dd[300]; int rd = 99; if (V_TRY(20)) { rd = isal_inflate_set_dict(st, dd, sizeof dd); V_END; } else { fault_key("isal_inflate_set_dict after zlib header"); goto out; }
+		if (rd != ISAL_DECOMP_OK) { v_viol("zlib-reader:state-after-fdict-header", "isal_inflate_set_dict returned %d after the header with FDICT was read (chunking mode %d)", rd, mode); goto out; } st_dict_after++; }
 	size_t consumed = given - st->avail_in;
 	if (consumed != hl) v_viol("zlib-reader:position", "stopped after %zu bytes, header is %zu", consumed, hl);
 	else if (zh.info != (uint32_t) info || zh.level != (uint32_t) level || zh.dict_flag != (uint32_t) fdict) v_viol("zlib-reader:fields", "info/level/dict_flag recovered as %u/%u/%u", zh.info, zh.level, zh.dict_flag);
@@ -264,7 +268,7 @@ int main(int argc, char **argv)
 	/* systematic: every split point of a header that uses every optional field */
 	for (int k = 0; k < (vopt.thorough ? 40 : 6); k++) { long idx = 900000000l + k; if (!v_mine(idx)) continue; /* covered through gzip_read_case mode 1 with explicit splits below */
 		vrng r; vr_seed(&r, vopt.seed, 81, idx); (void) r; }
-	v_stat("evaluations", st_writes + st_reads); v_stat("header_split_histories_through_isal_inflate", st_via_inflate); v_stat("arbitrary_headers_accepted_and_cross_checked", st_verdict_ok); v_stat("arbitrary_headers_rejected_and_cross_checked", st_verdict_rej); v_stat("header_writes", st_writes); v_stat("too_small_output_cases", st_small); v_stat("reader_calls", st_reads); v_stat("overflow_resumes", st_resumes); v_stat("chunked_reads", st_splits); v_stat("arbitrary_inputs", st_arbitrary);
+	v_stat("evaluations", st_writes + st_reads); v_stat("header_split_histories_through_isal_inflate", st_via_inflate); v_stat("set_dict_accepted_after_fdict_header", st_dict_after); v_stat("arbitrary_headers_accepted_and_cross_checked", st_verdict_ok); v_stat("arbitrary_headers_rejected_and_cross_checked", st_verdict_rej); v_stat("header_writes", st_writes); v_stat("too_small_output_cases", st_small); v_stat("reader_calls", st_reads); v_stat("overflow_resumes", st_resumes); v_stat("chunked_reads", st_splits); v_stat("arbitrary_inputs", st_arbitrary);
 	for (int c = 0; c < 16; c++) if (st_ret[c]) { char e[16]; snprintf(e, sizeof e, "%d", c - 8); v_count("reader_status_codes", e, st_ret[c]); }
 	return v_finish();
 }
